@@ -385,4 +385,6 @@ def check(rep, F, tier, replay=None):
     boot_size_each_rule(rep, F)
     from ruleutil import size_fresh_rule
     size_fresh_rule(rep, F)
+    from ruleutil import sib_qty_rule
+    sib_qty_rule(rep, F)
     return rep.finish(EXPLANATION, ["the categorizer stores the address parameter unchanged (AssetCategorizer::new / TxOutputProposal::new clone it)"], ["csl-facts driver (HIR/MIR)", "tables/conway_cddl.json (set types, tag 258)", "E2 writer tables"])
